@@ -112,7 +112,7 @@ def nontrivial(line, out):
     return out.startswith("OK")
 
 
-SCHEMES = ["8", "16", "24", "32", "rgba", "nrgba", "cmyk", "gray", "inv", "mix1", "mix2", "mix3", "mix4"]
+SCHEMES = ["8", "16", "24", "32", "rgba", "nrgba", "cmyk", "gray", "inv", "mix1", "mix2", "mix3", "mix4", "pal"]
 
 
 def _split(line, out):
